@@ -16,6 +16,11 @@ pub fn verif_dir() -> String {
     std::env::var("VERIF_DIR").unwrap_or_else(|_| "/verif".to_owned())
 }
 
+/// Where evidence and replay files go (VERIF_OUT lets mutant trials write elsewhere).
+pub fn out_dir() -> String {
+    std::env::var("VERIF_OUT").unwrap_or_else(|_| verif_dir())
+}
+
 pub struct PropSpec {
     pub id: &'static str,
     pub level: &'static str,
@@ -46,6 +51,7 @@ pub struct Agg {
     pub frames: u64,
     pub max_of: BTreeMap<String, u64>,
     pub violations: Vec<(u64, u64, Plan, Violation)>,
+    pub known_seen: BTreeMap<String, u64>,
     pub errors: Vec<String>,
     pub frames_per_run: Vec<u32>,
 }
@@ -55,7 +61,7 @@ fn add(m: &mut BTreeMap<String, u64>, k: &str, v: u64) {
 }
 
 impl Agg {
-    pub fn absorb(&mut self, index: u64, seed: u64, plan: &Plan, out: &RunOut, nontrivial: bool) {
+    pub fn absorb(&mut self, index: u64, seed: u64, plan: &Plan, out: &RunOut, nontrivial: bool, findings: &[Finding]) {
         self.runs += 1;
         let p = &out.probes;
         for (k, v) in [
@@ -125,7 +131,9 @@ impl Agg {
         self.frames += p.frames_first;
         self.frames_per_run.push(p.max_frame.max(0) as u32);
         if let Some(v) = out.violations.first() {
-            if self.violations.len() < 64 {
+            if let Some(f) = match_finding(findings, &plan.property, plan, v) {
+                add(&mut self.known_seen, &f.id, 1);
+            } else if self.violations.len() < 64 {
                 self.violations.push((index, seed, plan.clone(), v.clone()));
             }
         }
@@ -153,6 +161,9 @@ impl Agg {
         self.sim_us += o.sim_us;
         self.frames += o.frames;
         self.violations.extend(o.violations);
+        for (k, v) in o.known_seen {
+            add(&mut self.known_seen, &k, v);
+        }
         self.errors.extend(o.errors);
         self.frames_per_run.extend(o.frames_per_run);
     }
@@ -187,7 +198,7 @@ pub fn plan_summary(plan: &Plan) -> Value {
 
 /// Runs indices `0..runs` of a property on `threads` workers. A run never shares anything with
 /// another run; the worker count cannot influence a run.
-pub fn run_batch(spec: &PropSpec, tier: &str, batch_seed: u64, runs: u64, threads: usize, cap: Duration) -> BatchResult {
+pub fn run_batch(spec: &PropSpec, tier: &str, batch_seed: u64, runs: u64, threads: usize, cap: Duration, findings: &[Finding]) -> BatchResult {
     let next = AtomicU64::new(0);
     let total = Mutex::new(Agg::default());
     let samples = Mutex::new(BTreeMap::<u64, Value>::new());
@@ -213,7 +224,7 @@ pub fn run_batch(spec: &PropSpec, tier: &str, batch_seed: u64, runs: u64, thread
                     match run_plan(&plan) {
                         Ok(out) => {
                             let nt = (spec.nontrivial)(&plan, &out);
-                            agg.absorb(i, seed, &plan, &out, nt);
+                            agg.absorb(i, seed, &plan, &out, nt, findings);
                             if i < 3 {
                                 samples.lock().unwrap().insert(
                                     i,
@@ -314,7 +325,7 @@ pub fn match_finding<'a>(fs: &'a [Finding], property: &str, plan: &Plan, v: &Vio
 // ------------------------------------------------------------- replay files
 
 pub fn write_replay(property: &str, index: u64, seed: u64, plan: &Plan, v: &Violation, shrink_steps: &[String], trace_hash: u64) -> String {
-    let dir = format!("{}/replays", verif_dir());
+    let dir = format!("{}/replays", out_dir());
     let _ = std::fs::create_dir_all(&dir);
     let path = format!("{dir}/{property}-{seed:016x}.json");
     let doc = json!({
@@ -361,6 +372,17 @@ pub fn replay_file(path: &str) -> i32 {
         }
         Ok(out) => {
             println!("replayed {path}: simulated {} ms, trace {:016x}", out.end_us / 1000, out.trace_hash);
+            if std::env::var("VERIF_TRACE").is_ok() {
+                for (i, n) in out.nodes.iter().enumerate() {
+                    println!("  node {i}: final frame {}, sealed {}, alive {}, conn {:?}", n.final_frame, n.sealed, n.alive, n.conn);
+                    for (t, e) in &n.events {
+                        if !matches!(e, crate::world::Ev::Synchronizing { .. } | crate::world::Ev::Wait { .. }) {
+                            println!("    t={} ms {:?}", t / 1000, e);
+                        }
+                    }
+                }
+                println!("  counters {:?}", out.counters);
+            }
             for v in &out.violations {
                 println!("  violation class={} node={} frame={} t={}us: {}", v.class, v.node, v.frame, v.t_us, v.text);
             }
@@ -380,10 +402,11 @@ pub fn replay_file(path: &str) -> i32 {
 pub fn check(spec: &PropSpec, tier: &str) -> i32 {
     let batch_seed: u64 = std::env::var("VERIF_SEED").ok().and_then(|s| s.parse().ok()).unwrap_or(spec.default_seed);
     let threads: usize = std::env::var("VERIF_THREADS").ok().and_then(|s| s.parse().ok()).unwrap_or(16);
-    let runs = std::env::var("VERIF_RUNS").ok().and_then(|s| s.parse().ok()).unwrap_or(if tier == "thorough" { spec.thorough_runs } else { spec.quick_runs });
+    let runs = std::env::var("VERIF_RUNS").ok().and_then(|s| s.parse().ok()).unwrap_or_else(|| crate::props::runs(spec, tier));
     let cap = Duration::from_secs(std::env::var("VERIF_CAP_S").ok().and_then(|s| s.parse().ok()).unwrap_or(if tier == "thorough" { 1500 } else { 150 }));
     println!("check {} tier={tier} VERIF_SEED={batch_seed} runs={runs} threads={threads}", spec.id);
-    let res = run_batch(spec, tier, batch_seed, runs, threads, cap);
+    let findings = load_findings();
+    let res = run_batch(spec, tier, batch_seed, runs, threads, cap, &findings);
     let agg = &res.agg;
     let mut exit = 0;
     let mut harness_errors: Vec<String> = agg.errors.iter().take(5).cloned().collect();
@@ -392,14 +415,13 @@ pub fn check(spec: &PropSpec, tier: &str) -> i32 {
     }
     for p in spec.required_probes {
         let v = agg.probes.get(*p).or_else(|| agg.faults.get(*p)).or_else(|| agg.events.get(*p)).copied().unwrap_or(0);
-        if v == 0 && runs >= spec.quick_runs {
+        if v == 0 && runs >= crate::props::runs(spec, "quick") {
             harness_errors.push(format!("reach probe '{p}' stayed at zero: the workload or fault mix does not reach what this property depends on"));
         }
     }
     // violations: group by class, minimise the first of each class, replay in a fresh process
-    let findings = load_findings();
     let mut reported: BTreeSet<String> = BTreeSet::new();
-    let mut known_seen: BTreeMap<String, u64> = BTreeMap::new();
+    let mut known_seen: BTreeMap<String, u64> = agg.known_seen.clone();
     let mut violation_count = 0;
     let mut new_classes = 0;
     for (index, seed, plan, v) in &agg.violations {
@@ -475,7 +497,7 @@ pub fn check(spec: &PropSpec, tier: &str) -> i32 {
 
 pub fn write_evidence(spec: &PropSpec, tier: &str, batch_seed: u64, runs: u64, res: &BatchResult, violations: u64, known: &BTreeMap<String, u64>) {
     let agg = &res.agg;
-    let dir = format!("{}/evidence", verif_dir());
+    let dir = format!("{}/evidence", out_dir());
     let _ = std::fs::create_dir_all(&dir);
     let seeds: Vec<String> = (0..runs.min(5)).map(|i| format!("{:016x}", run_seed(batch_seed, spec.id, i))).collect();
     let doc = json!({
